@@ -122,8 +122,8 @@ def rows_rule(ctx: Ctx):
 def index_rule(ctx: Ctx):
     prog = ctx.prog
     fi = prog.func(f"{CLI}::parse")
-    for n in range(0, 5):
-        for idx in [None] + list(range(0, n + 2)):
+    for n in list(range(0, 5)) + [30]:
+        for idx in ([None] + list(range(0, n + 2)) if n < 5 else [0, 19, 20, 21, 25, 29, 30, 31]):
             site = f"{fi.key}::n={n},index={idx}"
             rec = Rec()
             pk = model_packets(n)
